@@ -137,7 +137,7 @@ func VfC15_History() {
 		nd.Assert(set.Len() == len(members), "member count")
 		// a list handed out earlier (a connection being balanced, a SCAN in progress, a monitor
 		// round) is not rewritten by later mutations of the set
-		for _, sn := range snaps {
+		for _, sn := range snaps[:len(snaps)*nd.Param("snapshots", 1)] {
 			nd.Assert(len(sn.list) == len(sn.was), "a list of usable hosts handed out earlier keeps its content while the set changes")
 			for i := 0; i < len(sn.list) && i < len(sn.was); i++ {
 				nd.Assert(sn.list[i] == sn.was[i], "a list of usable hosts handed out earlier keeps its content while the set changes")
